@@ -94,6 +94,7 @@ def run_shard(spec, seed, tier, stats):
                      for vn in be.VUL_NAMES for decl in range(4) for tricks in range(14)]
             # the complete grid, three times in different orders: a score must not depend on what was scored before
             for name, items in orders(cells, seed // 1000):
+                be.stir(seed + len(name))      # unrelated library activity between the passes
                 for t in items:
                     try:
                         _cell(*t, stats=stats if name == 'forward' else None)
